@@ -15,6 +15,7 @@ VERUS_UNITS = {
     'f64-ast': dict(unit='f64-ast', rlimit=30),
     'number-ast': dict(unit='number-ast', rlimit=30, always_split=['eval']),
     'i64number-agree': dict(unit='i64number-agree', rlimit=30),
+    'f64number-agree': dict(unit='f64number-agree', rlimit=30),
     'i64-tok': dict(unit='i64-tok', rlimit=30), 'f64-tok': dict(unit='f64-tok', rlimit=30), 'number-tok': dict(unit='number-tok', rlimit=30),
     'decimal-tok': dict(unit='decimal-tok', rlimit=30), 'complex-tok': dict(unit='complex-tok', rlimit=30),
     'i64-glue': dict(unit='i64-glue'), 'f64-glue': dict(unit='f64-glue'), 'number-glue': dict(unit='number-glue'), 'decimal-glue': dict(unit='decimal-glue'), 'complex-glue': dict(unit='complex-glue'),
@@ -114,14 +115,19 @@ PLAN = {
                            'agreement with eval_f64 on real operands']),
     'C09': dict(verus=['number-ast', 'number-tok', 'number-glue'], kani=['number-ast', 'number-l4'], level='proof', assumptions=F64_ASSUME + KANI_ASSUME + TOK_ASSUME,
                 unclaimed=['bit-level meaning of the IEEE primitives (A-ieee in the Verus unit: each is an uninterpreted total function; Kani proves + - * unary minus abs and the rounding functions bit-exact, / and % on a bounded domain)']),
-    'C15': dict(verus=['i64-ast', 'f64-ast', 'number-ast', 'i64number-agree'] + PARSERS + GLUES, kani=['i64-ast', 'number-ast', 'f64-ast', 'number-l4'], tables_agree=True, level='proof',
+    'C15': dict(verus=['i64-ast', 'f64-ast', 'number-ast', 'i64number-agree', 'f64number-agree'] + PARSERS + GLUES, kani=['i64-ast', 'number-ast', 'f64-ast', 'number-l4'], tables_agree=True, level='proof',
                 assumptions=AST_ASSUME + F64_ASSUME + KANI_ASSUME + PARSER_ASSUME + [
                     'agreement is obtained as a corollary, not as one relational theorem: (1) eval_i64 returns Ok(v) only for the exact integer v (Verus, all trees) and eval_number returns Integer(exact) on Integer operands whenever it fits (Kani, per constructor), '
                     '(2) every Float / mixed arm of eval_number has the numeric value of the IEEE operation that the same arm of eval_f64 applies (Kani, per constructor, bit-exact), '
                     '(3) all five parsers refine spec parsers generated from tables that are identical on shared entries. For the first clause (eval_i64 vs eval_number) the induction over the expression tree that combines the two per-evaluator theorems '
                     'is machine-checked: unit i64number-agree proves, over the two specification vocabularies the evaluators are verified against, that on corresponding trees of the common integer sub-language (exact divisions only) a value v of the '
-                    'eval_i64 specification implies Integer(v) of the eval_number specification; for the float clauses the combination is on paper'],
-                unclaimed=['eval_complex vs eval_f64 and eval_decimal vs eval_f64 within 1e-9 (numerical: no contract here can express it)']),
+                    'eval_i64 specification implies Integer(v) of the eval_number specification. For the second clause (eval_f64 vs eval_number) unit f64number-agree proves the same kind of theorem over the eval_f64 and eval_number vocabularies: on corresponding trees of the shared grammar '
+                    '(arithmetic, sign / rounding functions, the libm-backed functions; not x!, w, ilog and the aggregates), if every intermediate eval_f64 value is finite, below 2^53 and not a negative zero and no Integer is raised to a negative Integer power, '
+                    'the eval_number value has exactly the double value of eval_f64',
+                    'A-ieee-exact (unit f64number-agree, axiom_ieee_exact): integers below 2^53 are exact doubles, so + - * exact-/ fmod neg abs floor ceil round trunc signum commute with the i64 -> f64 conversion whenever the result stays nice; '
+                    'f64 -> i64 -> f64 round-trips on integral values; pow is exact on integer powers below 2^53 (the last one is an assumption about libm)'],
+                unclaimed=['eval_complex vs eval_f64 and eval_decimal vs eval_f64 within 1e-9 (numerical: no contract here can express it)',
+                           'the second clause for x!, w, ilog and the aggregates (outside the sub-language of the f64 / number theorem)']),
     'C17': dict(verus=PARSERS, features_sweep=True, level='proof',
                 assumptions=PARSER_ASSUME + ['cargo feature resolution; the all-features test suite is the baseline, the crate\'s unit tests are not re-run per subset',
                                              'the cfg-dependent text is only the category enum: per subset the derived order is re-proved by Kani and the build/export probe is compiled; '
@@ -172,7 +178,7 @@ _V = 'Verus proves, for all inputs and with no bound, the contracts spliced onto
 LEVEL_TEXT = {
     'C01': _V + 'owned obligations = every implicit panic obligation (arithmetic overflow, division by zero, shift range, index bounds, unwrap / callee preconditions incl. the panic conditions of rust_decimal stated in its contract header) of '
                 'all five tokenizers, all five parsers, the five public wrappers and all five evaluators (every tree, any arity); for eval_f64, eval_number and eval_i64 Kani additionally proves one harness per constructor over fully symbolic leaves '
-                '(rustc overflow assertions and CBMC pointer / bounds checks on, all operand bit patterns). Two routines of eval_decimal are known findings.',
+                '(rustc overflow assertions and CBMC pointer / bounds checks on, all operand bit patterns). Termination is part of it (a call that never returns yields neither Ok nor Err): the decreases obligations and the progress clause of the parser methods are co-owned with C02.',
     'C02': _V + 'owned obligations = the decreases clauses of every loop and every (mutual) recursion in the tokenizers (measure: characters left; every token consumes at least one), the parsers (measure: tokens left), '
                 'all five evaluators (structural recursion, Euclid, factorial with its caps 170 / 20, Lambert W capped at 128 iterations, ilog capped at 64 steps); Kani cross-checks the caps of eval_f64 and eval_number '
                 'with unwinding assertions over the full operand domain. Work is bounded, not only finite: every evaluator carries a ghost step counter with the contract `calls of eval <= nodes of the tree` (cost), and every parser method carries a size clause from which Parser::parse ensures `nodes < 2 * tokens` (so a parser that builds more than it reads, or an evaluator that evaluates a subtree twice, fails an obligation); every parser method carries a ghost step counter too, bounded by 8 per consumed token on success and by 8 * (tokens left) + 9 on every error path, so Parser::parse makes at most 8 * tokens + 9 method calls and loop iterations; the tokenizer consumes at least one character per token. Still on paper: adding the three bounds up to the constant 4096 + 256*len.',
@@ -183,7 +189,7 @@ LEVEL_TEXT = {
     'C06': _V + 'eval_i64::ast::eval returns the exact integer of the mathematical specification spec_eval or Err, for all trees; overflow obligations of every arithmetic arm are discharged; Kani cross-checks each arm with bit-vector semantics '
                 '(shifts as multiplication / floor division by 2^y) and supplies replayable counterexamples.',
     'C10': _V + 'every README name and alias lexes to its function token in each evaluator that offers it (lexical specification of the tokenizers); arity and argument order of every function in all five parsers (refinement to the function table); exact integer functions of eval_i64; the mapping of every function node to the rust_decimal / num_complex operation (headers); '
-                'every function node of eval_f64 and eval_number applies the named IEEE / libm primitive to its children\'s values in the stated order (primitives uninterpreted), with Number::from applied to the result in eval_number; '
+                'every function node of eval_f64 and eval_number applies the named IEEE / libm primitive to its children\'s values in the stated order (primitives uninterpreted), with Number::from applied to the result in eval_number; x! of a non-integer (eval_f64) resp. outside 0..=20 / of a Float (eval_number) is gamma(x + 1) - which argument reaches gamma is proved, its value is not; '
                 'Kani: every function arm of eval_f64 / eval_number / eval_i64 applies the named libm primitive once to the operands in the stated order (recording stubs), exact ones (abs, floor, ceil, trunc, round with ties away from zero, sgn(0)=0) bit-exactly.',
     'C11': _V + 'eval_i64 aggregates (min max avg med gcd lcm) for any arity against fold specifications over the sequence of argument values, error propagation; variadic argument lists and the empty-list policy in the four parsers that have them; '
                 'eval_f64 and eval_number aggregates for any arity: min / max are the fold of the IEEE min / max (eval_number: of the comparison of the double values, keeping the argument) from the identity, avg is the left-to-right sum divided by the count, '
@@ -216,7 +222,9 @@ LEVEL_TEXT['C19'] = ('Verus proves for every input of every tokenizer that a lit
                      'scanned to the end of its digit run and prefixed with 0, that exactly this text is handed to str::parse / Decimal::from_str (no f64 round trip for Decimal), that eval_number '
                      'chooses Integer iff the text has no point, that eval_complex makes it imaginary iff an `i` follows directly, and that text the conversion rejects yields Err instead of a panic.')
 LEVEL_TEXT['C15'] = ('The components of the agreement are discharged separately: exactness of eval_i64 (Verus), Integer-exact-or-Float behaviour of eval_number on Integer operands and IEEE values on Float operands (Kani, per constructor), '
-                     'bit-exact IEEE arms of eval_f64 (Kani), refinement of all five parsers to spec parsers generated from tables that are checked to be identical on shared entries.')
+                     'bit-exact IEEE arms of eval_f64 (Kani), refinement of all five parsers to spec parsers generated from tables that are checked to be identical on shared entries. '
+                     'Both agreement clauses between evaluators of this crate are then machine-checked theorems over the specification vocabularies the evaluators are verified against (units i64number-agree and f64number-agree): '
+                     'Ok(v) of eval_i64 implies Integer(v) of eval_number on the integer sub-language; on the shared f64 grammar with nice intermediate values the eval_number value has exactly the double value of eval_f64 (IEEE exactness facts below 2^53 as axioms).')
 DESIGN_REF = {}
 TECHNIQUE = {'C18': 'contract-style full-domain Kani harness on the unmodified function (bit-precise, no unwinding bound)'}
 NOT_APPLICABLE = {
